@@ -9,7 +9,6 @@ ORDERS3 = [list(p) for p in itertools.permutations(['a', 'b', 'c'])]
 ORDERS4 = [list(p) for p in itertools.permutations(['a', 'b', 'c', 'd'])]
 
 
-LEVEL = 'exploration'
 
 
 def run(chk):
@@ -23,8 +22,18 @@ def run(chk):
         'to_nx graph and DOT text (parsed by a small trusted reader: solid = '
         'then, dashed = else, taillabel -1 = complement, ref layer) must '
         'contain exactly the reachable nodes with levels and EVALUATE to the '
-        'root\'s function (TLC evaluates the exported graph). '
+        'root\'s function (TLC evaluates the exported graph). S1: MC_Views checks the '
+        'transcribed descendants/to_nx/_to_dot/len on every reachable state of BDDSpec; '
+        'every recorded view is also compared with the transcription (non-gating clause '
+        'model.views_transcription). '
         'distinct_nontrivial = distinct (order, reference) + distinct exported graphs')
+    # S1: the transcribed views (spec/Views.tla) are faithful in every reachable state of BDDSpec
+    chk.mc('MC_Views', 'MC_Views.cfg' if q else 'MC_Views_deep.cfg', timeout=5000)
+    for cfg in ('MC_Views_neg_mark.cfg', 'MC_Views_neg_desc.cfg'):
+        r = common.tlcrun.model_check('MC_Views', cfg, 'neg', timeout=900)
+        if 'Invariant InvViews is violated' not in r['out']:
+            raise common.tlcrun.MachineryError('negative configuration %s was not refuted' % cfg)
+        chk.extra.setdefault('negative_configurations_refuted', []).append(cfg)
     tmp = os.path.join(chk.dir, 'tmp')
     tasks = []
     tid = 18000000
